@@ -17,7 +17,7 @@ def declare(reg, eng):
     reg.klass("EnumType", ["Type"], {"type": None}, real=M + "EnumType")
     reg.klass("UnionType", ["Type"], {"types": "list[Type]"})
     reg.specfuns["hastype"] = lambda e, st, a: V(BoolV(hastype(a[0].t, a[1].t)), "bool")
-    reg.specfuns["asreal"] = lambda e, st, a: V(Val.FloatV(z3.If(Val.is_FloatV(a[0].t), Val.f(a[0].t), z3.ToReal(Val.i(a[0].t)))), "float")
+    reg.specfuns["asreal"] = lambda e, st, a: V(Val.FloatV(z3.If(Val.is_FloatV(a[0].t), vf(a[0].t), z3.ToReal(vi(a[0].t)))), "float")
 
     reg.runtime.update(asreal=float, inst_of=lambda v, c: isinstance(v, c))
     for c in ("IntType", "StrType", "FloatType", "BoolType", "PathType", "AnyType", "ArrayType", "DictType"):
